@@ -247,7 +247,11 @@ func (c vrunCase) runCode(model string, b *pipeBudget) vrunObs {
 	ch := v.Pull(ctx, ropts...)
 
 	mouts, mtail, haveModel := splitModel(model, len(c.Moves), ";")
-	synced := haveModel && c.Equiv != "nil"
+	free := model != "" && c.Equiv == "nil" // no hook to wait on: the run is not scheduled by the model at all
+	if free {
+		haveModel = false
+	}
+	synced := haveModel
 	recv := func(wait time.Duration) string {
 		t := time.NewTimer(wait)
 		defer t.Stop()
@@ -263,9 +267,12 @@ func (c vrunCase) runCode(model string, b *pipeBudget) vrunObs {
 	}
 	catchUp := func(out string) {
 		if !synced {
-			if !haveModel {
+			switch {
+			case free:
+				time.Sleep(time.Duration(50*(len(obs.Outs)%4)) * time.Microsecond) // whatever interleaving results is fine
+			case !haveModel:
 				time.Sleep(3 * time.Millisecond)
-			} else {
+			default:
 				time.Sleep(200 * time.Microsecond)
 			}
 			return
@@ -285,6 +292,12 @@ func (c vrunCase) runCode(model string, b *pipeBudget) vrunObs {
 		}
 		if mv == "d" {
 			switch {
+			case free:
+				got := recv(time.Millisecond)
+				if got == "timeout" {
+					got = "none"
+				}
+				obs.Outs = append(obs.Outs, got)
 			case !haveModel:
 				got := recv(30 * time.Millisecond)
 				if got == "timeout" {
@@ -323,7 +336,33 @@ func (c vrunCase) runCode(model string, b *pipeBudget) vrunObs {
 		catchUp(mo)
 	}
 	// drain to quiescence (model-guided while the run followed the model's schedule, else until quiet)
-	if haveModel && !obs.Unsynced {
+	if free {
+		// nothing is suppressed without an equivalence and the generator gives these cases distinct values:
+		// the stream is quiescent exactly when the last value written (else the seed) has arrived
+		target := c.Seed
+		for _, mv := range c.Moves {
+			if mv != "d" {
+				target = strings.TrimPrefix(mv, "w:")
+			}
+		}
+		last := ""
+		for _, o := range obs.Outs {
+			if o != "none" {
+				last = o
+			}
+		}
+		for target != "-" && last != c.filt(target) {
+			g := recv(pipeWait)
+			if g == "timeout" || g == "closed" {
+				break
+			}
+			obs.Drain = append(obs.Drain, g)
+			last = g
+		}
+		if g := recv(300 * time.Microsecond); g != "timeout" && g != "closed" {
+			obs.Drain = append(obs.Drain, g)
+		}
+	} else if haveModel && !obs.Unsynced {
 		for range listOf(mtail[0]) {
 			obs.Drain = append(obs.Drain, recv(pipeWait))
 		}
@@ -463,11 +502,22 @@ func genVrunCases(f lib.Flags) []vrunCase {
 		if r.Intn(4) > 0 {
 			c.Seed = fmt.Sprintf("%d%d", 1+r.Intn(4), r.Intn(3))
 		}
+		if c.Equiv == "nil" {
+			c.Mask = false // these cases are not scheduled by the model: distinct values make "the latest has arrived" unambiguous
+			if c.Seed != "-" {
+				c.Seed = "10"
+			}
+		}
 		slow := r.Intn(3)
+		nw := 0
 		for k, L := 0, 2+r.Intn(14); k < L; k++ {
-			if r.Intn(3) < slow {
+			switch {
+			case r.Intn(3) < slow:
 				c.Moves = append(c.Moves, "d")
-			} else {
+			case c.Equiv == "nil":
+				nw++
+				c.Moves = append(c.Moves, fmt.Sprintf("w:%d%d", 1+nw/10, nw%10))
+			default:
 				c.Moves = append(c.Moves, fmt.Sprintf("w:%d%d", 1+r.Intn(4), r.Intn(3)))
 			}
 		}
